@@ -203,6 +203,8 @@ func byteColorShapes() []string {
 		byteColorsTok([2]string{"A()", "red"}),
 		byteColorsTok([2]string{"A(A(n:255;n:0))", "red"}),
 		byteColorsTok([2]string{"A(A(n:-1;n:300))", "bggreen"}),
+		byteColorsTok([2]string{"A(A(n:0;n:9223372036854775807))", "red"}),
+		byteColorsTok([2]string{"A(A(n:-9223372036854775808;n:66))", "bgbrightred"}),
 		"A()", "n:1", strTok("0-255=bgbrightred"),
 	)
 	return shapes
@@ -343,6 +345,25 @@ func generate(fns []fnInfo, p poolT, cfg hlib.Config, rnd *hlib.Rand) []pcase {
 			}
 		}
 		k := f.arity + 1
+		if f.src == "direct" {
+			// @bytecolor: every pair of boundary range ends, one and two entries, on four bytes
+			ends := []string{"n:-9223372036854775808", "n:-1", "n:0", "n:1", "n:65", "n:255", "n:256", "n:300", "n:9223372036854775807"}
+			bytes4 := []string{"n:0", "n:44", "n:65", "n:255"}
+			for _, lo := range ends {
+				for _, hi := range ends {
+					r := "A(A(" + lo + ";" + hi + "))"
+					one := byteColorsTok([2]string{r, "red"})
+					two := byteColorsTok([2]string{allBytes, "bold"}, [2]string{r, "bgbrightred"})
+					for _, b := range bytes4 {
+						cases = append(cases, pcase{fn: fi, toks: []string{one, b}}, pcase{fn: fi, toks: []string{two, b}})
+					}
+				}
+			}
+			cases = append(cases, pcase{fn: fi, toks: []string{"A()", "n:7"}}, pcase{fn: fi, toks: []string{byteColorsTok([2]string{"A()", "red"}), "n:7"}},
+				pcase{fn: fi, toks: []string{byteColorsTok([2]string{"A(A(n:0;n:10);A(n:200;n:255))", "red"}), "n:7"}},
+				pcase{fn: fi, toks: []string{byteColorsTok([2]string{"A(A(n:0;n:10);A(n:200;n:255))", "red"}), "n:100"}})
+			continue
+		}
 		if f.src == "syntax" {
 			var rec func(pos []int)
 			rec = func(pos []int) {
